@@ -700,6 +700,110 @@ func init() {
 		}})
 }
 
+func init() {
+	register(&Rule{ID: "C10.R8", Props: []string{"C10", "C01"}, Min: 3, Needs: NeedMain,
+		Doc: "per-request state is fresh and every timed request gets its deadline: the function that stamps the receive time returns, on every path, a context created by ContextWithTarsCurrent in that very call (never one cached per connection: request/response context, status and packet type live in it); in the server entry point the original context reaches the deadline test only on the ITimeout <= 0 edge, every other path goes through context.WithTimeout",
+		Run: func(r *R) {
+			sp := r.w.Pkg("tars/transport")
+			n := 0
+			for _, fn := range r.w.Funcs(sp) {
+				if fn.Parent() != nil || !stampsRecvTime(fn) {
+					continue
+				}
+				n++
+				okk := true
+				why := ""
+				for _, b := range fn.Blocks {
+					ret, ok := b.Instrs[len(b.Instrs)-1].(*ssa.Return)
+					if !ok || len(ret.Results) != 1 {
+						continue
+					}
+					v := resolveSpill(ret.Results[0])
+					c, isCall := v.(*ssa.Call)
+					if !isCall || calleeObj(&c.Call) == nil || calleeObj(&c.Call).Name() != "ContextWithTarsCurrent" {
+						okk = false
+						why = pathOf(v)
+					}
+				}
+				r.Check(okk, fname(fn), "a fresh Current per request", fn.Pos(), "returns ContextWithTarsCurrent(...) created in this call", "the request context returned is %s, not a context created for this request: all requests multiplexed on the connection share one record of request/response context, status and packet type (a later call inherits an earlier call's response context; concurrent calls see each other's request context; a one-way call can swap the reply decision of a two-way call)", why)
+			}
+			if n < 2 {
+				r.Bad("tars/transport", "request context constructors", token.NoPos, "found %d functions that stamp the receive time (expected the TCP and the UDP one)", n)
+			}
+			// deadline propagation
+			fn := r.w.Func("tars", "Protocol.Invoke")
+			if fn == nil {
+				r.AnchorMissing("tars.(*Protocol).Invoke")
+				return
+			}
+			var sel *ssa.Select
+			eachInstr(fn, func(in ssa.Instruction) {
+				if s, ok := in.(*ssa.Select); ok && !s.Blocking && len(s.States) == 1 {
+					if ok2, _ := boundedChan(s.States[0].Chan); ok2 {
+						sel = s
+					}
+				}
+			})
+			if sel == nil {
+				return // reported by C10.R3
+			}
+			ctxv := sel.States[0].Chan.(*ssa.Call).Call.Value
+			okk, detail := true, ""
+			seen := map[ssa.Value]bool{}
+			var walk func(v ssa.Value, pred, succ *ssa.BasicBlock)
+			walk = func(v ssa.Value, pred, succ *ssa.BasicBlock) {
+				switch x := v.(type) {
+				case *ssa.Phi:
+					if seen[x] {
+						return
+					}
+					seen[x] = true
+					for i, e := range x.Edges {
+						walk(e, x.Block().Preds[i], x.Block())
+					}
+				case *ssa.Parameter:
+					// the caller's context: only when the request carries no timeout
+					untimed := false
+					var fs []EdgeFact
+					if pred != nil {
+						fs = append(facts(pred), edgeFactOf(pred, succ)...)
+					}
+					for _, f := range fs {
+						if c, ok := normFact(f); ok && strings.HasSuffix(pathOf(c.X), ".ITimeout") {
+							if k, isK := constInt(c.Y); isK && k == 0 && (c.Op == token.LEQ || c.Op == token.EQL || c.Op == token.LSS) {
+								untimed = true
+							}
+						}
+						// any other condition on this path that is not about ITimeout makes the deadline conditional
+					}
+					timed := false
+					for _, f := range fs {
+						if c, ok := normFact(f); ok && strings.HasSuffix(pathOf(c.X), ".ITimeout") && c.Op == token.GTR {
+							timed = true
+						}
+					}
+					if !untimed || timed {
+						okk = false
+						detail = "the caller's context reaches the deadline test on a path where ITimeout > 0"
+					}
+				case *ssa.Extract:
+					if c, ok := x.Tuple.(*ssa.Call); !ok || funcID(calleeObj(&c.Call)) != "context.WithTimeout" {
+						okk = false
+						detail = "context of unknown origin"
+					}
+				default:
+					okk = false
+					detail = "context of unknown origin " + pathOf(v)
+				}
+			}
+			walk(ctxv, nil, nil)
+			if _, isParam := ctxv.(*ssa.Parameter); isParam {
+				okk, detail = false, "the deadline test uses the caller's context directly"
+			}
+			r.Check(okk, fname(fn), "every request with ITimeout > 0 is tested against its own deadline", sel.Pos(), "ctx at the deadline test = WithTimeout(...) unless ITimeout <= 0", "%s: a request whose own timeout already elapsed while it was queued (non-positive remainder) gets no deadline, is executed and answered with success instead of the queue-timeout code", detail)
+		}})
+}
+
 func stampsRecvTime(f *ssa.Function) bool {
 	found := false
 	eachInstr(f, func(in ssa.Instruction) {
